@@ -20,6 +20,13 @@ pub enum AsOp {
     FlagWaitStart(usize),
     /// await the future parked in the shared slot (created and first polled by another task)
     FlagWaitShared,
+    /// a leaf future whose poll checks flag f, registers the waker, then blocks *synchronously*
+    /// (nested block_on) until flag g is set, and only then returns Pending on the stale check: the
+    /// wake for f may arrive while the task sleeps inside its own poll
+    FlagWaitNested(usize, usize),
+    /// a leaf future whose poll reads flag f, registers the waker, passes a scheduling point and
+    /// answers from the stale read: the wake may arrive during the poll
+    FlagWaitRacy(usize),
     /// block_on(yield_now()) inside a task: nested block_on
     NestedBlockOnYield,
     /// block_on(leaf future for flag f) inside a task
@@ -61,11 +68,43 @@ impl Future for FlagFuture<'_> {
     }
 }
 
+/// see AsOp::FlagWaitNested / FlagWaitRacy
+struct StaleFuture<'a> {
+    flag: &'a Flag,
+    nested: Option<&'a Flag>,
+    dummy: &'a shuttle::sync::atomic::AtomicUsize,
+}
+
+impl Future for StaleFuture<'_> {
+    type Output = ();
+    fn poll(self: Pin<&mut Self>, cx: &mut Context<'_>) -> Poll<()> {
+        let ready = self.flag.set.load(Ordering::SeqCst);
+        if ready {
+            return Poll::Ready(());
+        }
+        {
+            let mut ws = self.flag.waker.borrow_mut();
+            if !ws.iter().any(|w| w.will_wake(cx.waker())) {
+                ws.push(cx.waker().clone());
+            }
+        }
+        match self.nested {
+            Some(g) => shuttle::future::block_on(FlagFuture { flag: g }),
+            None => {
+                // a scheduling point inside the poll, after the waker has been registered
+                self.dummy.load(Ordering::SeqCst);
+            }
+        }
+        Poll::Pending
+    }
+}
+
 pub struct AsObjs {
     // NB drop order: the parked future borrows the flags
     shared: RefCell<Option<Pin<Box<FlagFuture<'static>>>>>,
     /// accessed before every use of the shared slot: tasks communicate through Shuttle primitives only
     slot_sync: shuttle::sync::atomic::AtomicUsize,
+    dummy: shuttle::sync::atomic::AtomicUsize,
     flags: Vec<Flag>,
 }
 
@@ -96,6 +135,7 @@ impl Family for AsyncFam {
         AsObjs {
             shared: RefCell::new(None),
             slot_sync: shuttle::sync::atomic::AtomicUsize::new(0),
+            dummy: shuttle::sync::atomic::AtomicUsize::new(0),
             flags: (0..*cfg)
                 .map(|_| Flag {
                     set: AtomicBool::new(false),
@@ -152,6 +192,14 @@ impl Family for AsyncFam {
                         }
                     }
                 }
+                AsOp::FlagWaitNested(f, g) => {
+                    StaleFuture { flag: &o.flags[*f], nested: Some(&o.flags[*g]), dummy: &o.dummy }.await;
+                    AsRes::Unit
+                }
+                AsOp::FlagWaitRacy(f) => {
+                    StaleFuture { flag: &o.flags[*f], nested: None, dummy: &o.dummy }.await;
+                    AsRes::Unit
+                }
                 AsOp::NestedBlockOnYield => {
                     shuttle::future::block_on(shuttle::future::yield_now());
                     AsRes::Unit
@@ -177,12 +225,18 @@ impl Family for AsyncFam {
             _ => None,
         }
     }
-    fn m_abortable(op: &AsOp) -> bool {
-        !matches!(op, AsOp::NestedBlockOnYield | AsOp::NestedBlockOnFlag(_))
+    fn m_abortable(op: &AsOp, phase: u8) -> bool {
+        match op {
+            AsOp::NestedBlockOnYield | AsOp::NestedBlockOnFlag(_) => false,
+            // while it blocks synchronously inside its poll (phase 1) it cannot be cancelled
+            AsOp::FlagWaitNested(..) => phase != 1,
+            _ => true,
+        }
     }
     fn objects_of(op: &AsOp) -> Vec<u32> {
         match op {
-            AsOp::FlagWait(f) | AsOp::FlagSet(f) | AsOp::NestedBlockOnFlag(f) => vec![0xA00 + *f as u32],
+            AsOp::FlagWait(f) | AsOp::FlagSet(f) | AsOp::NestedBlockOnFlag(f) | AsOp::FlagWaitRacy(f) => vec![0xA00 + *f as u32],
+            AsOp::FlagWaitNested(f, g) => vec![0xA00 + *f as u32, 0xA00 + *g as u32],
             AsOp::FlagWaitStart(f) => vec![0xA00 + *f as u32, 0xB00],
             AsOp::FlagWaitShared => vec![0xB00, 0xA00, 0xA01],
             AsOp::Yield | AsOp::NestedBlockOnYield => vec![],
@@ -199,7 +253,7 @@ impl Family for AsyncFam {
                 AsOp::FlagSet(f) => {
                     sets.entry(*f).or_insert(i);
                 }
-                AsOp::FlagWait(f) | AsOp::NestedBlockOnFlag(f) => {
+                AsOp::FlagWait(f) | AsOp::NestedBlockOnFlag(f) | AsOp::FlagWaitRacy(f) | AsOp::FlagWaitNested(f, _) => {
                     if let Some(s) = sets.get(f) {
                         out.push((*s, i));
                     }
@@ -229,6 +283,33 @@ impl Family for AsyncFam {
             AsOp::FlagSet(f) => {
                 n.set[*f] = true;
                 vec![MStep::Done(n, AsRes::Unit)]
+            }
+            // each poll: ready if f is set; otherwise (nested variant) wait synchronously for g, then
+            // back to the executor; the next poll happens once f is set (the wake may have arrived
+            // during the previous poll) — so the operation completes iff f (and, on the way, g) get set
+            AsOp::FlagWaitNested(f, g) => match phase {
+                0 => {
+                    if n.set[*f] {
+                        vec![MStep::Done(n, AsRes::Unit)]
+                    } else {
+                        vec![MStep::Cont(n, 1)]
+                    }
+                }
+                1 => {
+                    if n.set[*g] {
+                        vec![MStep::Cont(n, 0)]
+                    } else {
+                        vec![]
+                    }
+                }
+                _ => vec![],
+            },
+            AsOp::FlagWaitRacy(f) => {
+                if n.set[*f] {
+                    vec![MStep::Done(n, AsRes::Unit)]
+                } else {
+                    vec![]
+                }
             }
             AsOp::FlagWaitStart(f) => {
                 if n.set[*f] {
@@ -320,6 +401,10 @@ pub fn program_set(set: &str) -> Vec<Program<AsyncFam>> {
         vec![AsOp::NestedBlockOnYield],
         vec![AsOp::NestedBlockOnFlag(0)],
         vec![AsOp::FlagSet(0), AsOp::Yield],
+        vec![AsOp::FlagWaitNested(0, 1)],
+        vec![AsOp::FlagWaitRacy(0)],
+        vec![AsOp::FlagSet(0), AsOp::FlagSet(1)],
+        vec![AsOp::FlagSet(1), AsOp::FlagSet(0)],
     ];
     // what main does with child 1's handle after spawning both children
     #[derive(Clone, Copy)]
